@@ -52,6 +52,7 @@ pub fn run(seed: u64, count: usize, outdir: &str) -> std::io::Result<i32> {
     let mut hist: BTreeMap<String, usize> = BTreeMap::new();
     let mut distinct = BTreeSet::new();
     let (mut ncols, mut nskip_top, mut nnear, mut nnormals, mut nsurface) = (0usize, 0usize, 0usize, 0usize, 0usize);
+    let mut nmodel = 0usize;
     for ci in 0..count {
         let mut r = rng.fork();
         let g = if r.chance(0.7) { gen_csg(&mut r, true, false) } else { gen_expr(&mut r) };
@@ -128,17 +129,31 @@ pub fn run(seed: u64, count: usize, outdir: &str) -> std::io::Result<i32> {
                 // min/max ties on the surface make the gradient ambiguous at isolated voxels: only systematic disagreement counts
                 if nb > 0 && nb * 50 > surf.len() { bad.push(format!("kind=wrong-normal backend={name} {nb} of {} surface pixels; first {}", surf.len(), firstn.unwrap())); }
             }
-            write!(il, "{name} {} ; ", img.iter().map(|p| p.depth as u64).sum::<u64>()).unwrap();
+            if name == "vm" {
+                il.push_str("img");
+                let cb = |v: f32| if v.is_nan() { 0x7fc00000 } else if v == 0.0 { 0 } else { v.to_bits() };
+                for px in img.iter() { write!(il, " {}:{},{},{}", px.depth, cb(px.normal[0]), cb(px.normal[1]), cb(px.normal[2])).unwrap(); }
+            }
         }
-        cases.push_str(&line); cases.push('\n');
-        impls.push_str(il.trim_end()); impls.push('\n');
+        if il.is_empty() { il.push_str("no-image"); }
+        let small = (c.w as usize) * (c.h as usize) * (c.d as usize) <= 12000 && g.ctx.len() <= 120;
+        if small {
+            let mut wl = format!("c07 {} {}", crate::wire::fmt_arena(&g.ctx, &[]), g.root.verif_index());
+            for i in 0..4 { for j in 0..4 { write!(wl, " {}", canon_bits(m4[(i, j)])).unwrap(); } }
+            write!(wl, " {}", c.tiles.len()).unwrap();
+            for t in &c.tiles { write!(wl, " {t}").unwrap(); }
+            write!(wl, " {} {} {}", c.w, c.h, c.d).unwrap();
+            cases.push_str(&wl); cases.push('\n');
+            impls.push_str(&il); impls.push('\n');
+            nmodel += 1;
+        }
         for m in &bad { fails += 1; writeln!(oracle, "FAIL case={ci} {m} :: {line}").unwrap(); }
     }
     std::fs::write(format!("{outdir}/cases.txt"), cases)?;
     std::fs::write(format!("{outdir}/impl.txt"), impls)?;
     std::fs::write(format!("{outdir}/oracle.txt"), oracle)?;
     let mut js = String::from("{");
-    write!(js, "\"cases\": {count}, \"distinct_nontrivial\": {}, \"columns\": {ncols}, \"columns_outside_claim\": {nskip_top}, \"mismatch_within_rounding_of_zero\": {nnear}, \"surface_pixels\": {nsurface}, \"normals_checked\": {nnormals}, ", distinct.len()).unwrap();
+    write!(js, "\"cases\": {count}, \"distinct_nontrivial\": {}, \"columns\": {ncols}, \"columns_outside_claim\": {nskip_top}, \"mismatch_within_rounding_of_zero\": {nnear}, \"surface_pixels\": {nsurface}, \"normals_checked\": {nnormals}, \"images_replayed_by_the_model\": {nmodel}, ", distinct.len()).unwrap();
     write!(js, "\"mix\": {{{}}}, ", hist.iter().map(|(k, v)| format!("\"{k}\": {v}")).collect::<Vec<_>>().join(", ")).unwrap();
     write!(js, "\"oracle_fails\": {fails}}}").unwrap();
     std::fs::write(format!("{outdir}/stats.json"), js)?;
